@@ -136,6 +136,20 @@ Theorem C13_response_callbacks_iff_response : forall ev l sc tw subrun st st_c r
 Proof. exact response_callbacks_iff_response. Qed.
 Print Assumptions C13_response_callbacks_iff_response.
 
+(* the central statement of part (b): for every valid scenario tree (faults of any kind at any points of any
+   request of the tree, callbacks registered anywhere, callbacks that raise, subrequests with or without tweens
+   to any depth; [valid_tree] only excludes a callback re-registering its own kind and malformed fault
+   entries) and with or without an exception view, the interpreter's own run satisfies the declarative judge:
+   final depth 0; views and exception views see their own request; per request the finished callbacks are
+   exactly the registered ones, once, in order, after everything else (unless one of them is told to raise);
+   response callbacks (those registered in time) and then NewResponse occur exactly when a response came out
+   of the tween chain (a prefix of them, and no NewResponse, when one of them raises) *)
+Theorem C13_model_satisfies_judge : forall ev sc st r,
+  valid_tree sc = true -> run_top ev sc [] = (st, r) ->
+  judge sc (N.of_nat (length (stk st))) (log st) = true.
+Proof. exact model_satisfies_judge. Qed.
+Print Assumptions C13_model_satisfies_judge.
+
 (* every path of every analysed entry point satisfies the class the scope cases are judged by *)
 Theorem C13_scope_table_ok :
   forallb (fun pc => forallb (scope_spec (sc_cls pc)) (scope_paths pc) &&
